@@ -46,12 +46,17 @@ theorem isChannel_colon (n : Str) : isChannel (':' :: n) = false := by
 /-- the class re-reads the text it prints for `v`, whatever the node held before -/
 def RT {α : Type} (C : Cls α) (v : α) : Prop := ∀ cur, C.set cur (C.str v) = .ok v
 
+/-- the cache holds, under `name`, a text that the class reads as `v` whatever the node held -/
+def Cached {α : Type} (C : Cls α) (cache : Cache) (name : Str) (v : α) : Prop :=
+  ∃ raw, cacheGet cache name = some raw ∧ ∀ cur, C.set cur raw = .ok v
+
 theorem mkValue_cached {α : Type} (C : Cls α) (cache : Cache) (full : Str) (pv v : α)
-    (hp : RT C pv) (hc : cacheGet cache full = some (C.str v)) (hv : RT C v) :
+    (hp : RT C pv) (hc : Cached C cache full v) :
     mkValue C cache full pv = .made (v, true) false := by
+  obtain ⟨raw, h1, h2⟩ := hc
   unfold mkValue
   rw [hp C.dflt]
-  simp only [hc, hv pv]
+  simp only [h1, h2 pv]
 
 theorem mkValue_plain {α : Type} (C : Cls α) (cache : Cache) (full : Str) (pv : α)
     (hp : RT C pv) (hc : cacheGet cache full = none) :
@@ -62,18 +67,18 @@ theorem mkValue_plain {α : Type} (C : Cls α) (cache : Cache) (full : Str) (pv 
 
 theorem getChan_new {α : Type} (C : Cls α) (B : Str) (cache : Cache) (x : Var α) (c : Str) (v : α)
     (hf : findKey c x.chans = none) (hp : RT C x.value)
-    (hc : cacheGet cache (childName B c) = some (C.str v)) (hv : RT C v) :
+    (hc : Cached C cache (childName B c) v) :
     x.getChan C B cache c = ({ x with chans := x.chans ++ [(c, ⟨v, true⟩)] }, some ⟨v, true⟩) := by
   unfold Var.getChan
-  simp only [hf, mkValue_cached C cache _ x.value v hp hc hv]
+  simp only [hf, mkValue_cached C cache _ x.value v hp hc]
   rfl
 
 theorem getNet_new {α : Type} (C : Cls α) (B : Str) (cache : Cache) (x : Var α) (n : Str) (v : α)
     (hf : findKey n x.nets = none) (hp : RT C x.value)
-    (hc : cacheGet cache (childName B (':' :: n)) = some (C.str v)) (hv : RT C v) :
+    (hc : Cached C cache (childName B (':' :: n)) v) :
     x.getNet C B cache n = ({ x with nets := x.nets ++ [(n, ⟨v, true, []⟩)] }, some ⟨v, true, []⟩) := by
   unfold Var.getNet
-  simp only [hf, mkValue_cached C cache _ x.value v hp hc hv]
+  simp only [hf, mkValue_cached C cache _ x.value v hp hc]
   rfl
 
 theorem getNet_new_unset {α : Type} (C : Cls α) (B : Str) (cache : Cache) (x : Var α) (n : Str)
@@ -86,10 +91,10 @@ theorem getNet_new_unset {α : Type} (C : Cls α) (B : Str) (cache : Cache) (x :
 
 theorem netGetChan_new {α : Type} (C : Cls α) (NB : Str) (cache : Cache) (nv : Net α) (c : Str) (v : α)
     (hf : findKey c nv.chans = none) (hp : RT C nv.value)
-    (hc : cacheGet cache (childName NB c) = some (C.str v)) (hv : RT C v) :
+    (hc : Cached C cache (childName NB c) v) :
     nv.getChan C NB cache c = ({ nv with chans := nv.chans ++ [(c, ⟨v, true⟩)] }, some ⟨v, true⟩) := by
   unfold Net.getChan
-  simp only [hf, mkValue_cached C cache _ nv.value v hp hc hv]
+  simp only [hf, mkValue_cached C cache _ nv.value v hp hc]
   rfl
 
 /-- a channel name the start-up loop recognises -/
@@ -101,17 +106,17 @@ theorem eagerStep_base {α : Type} (C : Cls α) (K : Kind) (B : Str) (cache : Ca
 
 theorem eagerStep_chan {α : Type} (C : Cls α) (K : Kind) (B : Str) (cache : Cache) (x : Var α) (c : Str) (v : α)
     (hK : K.chanV = true) (hc : ChanOk c) (hf : findKey c x.chans = none) (hp : RT C x.value)
-    (hcache : cacheGet cache (childName B c) = some (C.str v)) (hv : RT C v) :
+    (hcache : Cached C cache (childName B c) v) :
     eagerStep C K B cache x (childName B c) = .cont { x with chans := x.chans ++ [(c, ⟨v, true⟩)] } := by
-  have := getChan_new C B cache x c v hf hp hcache hv
+  have := getChan_new C B cache x c v hf hp hcache
   simp only [eagerStep, childName, keyRest_child, splitName_one] at this ⊢
   rw [if_pos ⟨hK, hc.1, hc.2⟩, this]
 
 theorem eagerStep_net {α : Type} (C : Cls α) (K : Kind) (B : Str) (cache : Cache) (x : Var α) (n : Str) (v : α)
     (hf : findKey n x.nets = none) (hp : RT C x.value)
-    (hcache : cacheGet cache (childName B (':' :: n)) = some (C.str v)) (hv : RT C v) :
+    (hcache : Cached C cache (childName B (':' :: n)) v) :
     eagerStep C K B cache x (childName B (':' :: n)) = .cont { x with nets := x.nets ++ [(n, ⟨v, true, []⟩)] } := by
-  have := getNet_new C B cache x n v hf hp hcache hv
+  have := getNet_new C B cache x n v hf hp hcache
   simp only [eagerStep, childName, keyRest_child, splitName_one] at this ⊢
   rw [if_neg (by rw [isChannel_colon]; simp), if_pos (by simp)]
   simp only [List.drop_succ_cons, List.drop_zero]
@@ -146,13 +151,12 @@ theorem eagerStep_netchan_existing {α : Type} (C : Cls α) (K : Kind) (B : Str)
     (l : List (Str × Net α)) (n c : Str) (nv : Net α) (v : α)
     (hK : K.chanV = true) (hc : ChanOk c) (hn : (':' :: n).getLast? ≠ some '\\')
     (hx : x.nets = l ++ [(n, nv)]) (hl : findKey n l = none) (hf : findKey c nv.chans = none)
-    (hp : RT C nv.value) (hcache : cacheGet cache (childName (childName B (':' :: n)) c) = some (C.str v))
-    (hv : RT C v) :
+    (hp : RT C nv.value) (hcache : Cached C cache (childName (childName B (':' :: n)) c) v) :
     eagerStep C K B cache x (childName (childName B (':' :: n)) c) =
       .cont { x with nets := l ++ [(n, { nv with chans := nv.chans ++ [(c, ⟨v, true⟩)] })] } := by
   have hfind : findKey n x.nets = some nv := by rw [hx]; exact findKey_append_last n l nv hl
   have h1 : x.getNet C B cache n = (x, some nv) := by unfold Var.getNet; simp only [hfind]
-  have h2 := netGetChan_new C (childName B (':' :: n)) cache nv c v hf hp hcache hv
+  have h2 := netGetChan_new C (childName B (':' :: n)) cache nv c v hf hp hcache
   have h3 : x.getNetChan C B cache n c =
       ({ x with nets := l ++ [(n, { nv with chans := nv.chans ++ [(c, ⟨v, true⟩)] })] },
         some ({ nv with chans := nv.chans ++ [(c, ⟨v, true⟩)] }, ⟨v, true⟩)) := by
@@ -170,11 +174,11 @@ theorem eagerStep_netchan_fresh {α : Type} (C : Cls α) (K : Kind) (B : Str) (c
     (hK : K.chanV = true) (hc : ChanOk c) (hn : (':' :: n).getLast? ≠ some '\\')
     (hl : findKey n x.nets = none) (hpx : RT C x.value)
     (hnone : cacheGet cache (childName B (':' :: n)) = none)
-    (hcache : cacheGet cache (childName (childName B (':' :: n)) c) = some (C.str v)) (hv : RT C v) :
+    (hcache : Cached C cache (childName (childName B (':' :: n)) c) v) :
     eagerStep C K B cache x (childName (childName B (':' :: n)) c) =
       .cont { x with nets := x.nets ++ [(n, ⟨x.value, false, [(c, ⟨v, true⟩)]⟩)] } := by
   have h1 := getNet_new_unset C B cache x n hl hpx hnone
-  have h2 := netGetChan_new C (childName B (':' :: n)) cache ⟨x.value, false, []⟩ c v rfl hpx hcache hv
+  have h2 := netGetChan_new C (childName B (':' :: n)) cache ⟨x.value, false, []⟩ c v rfl hpx hcache
   have h3 : x.getNetChan C B cache n c =
       ({ x with nets := x.nets ++ [(n, ⟨x.value, false, [(c, ⟨v, true⟩)]⟩)] },
         some (⟨x.value, false, [(c, ⟨v, true⟩)]⟩, ⟨v, true⟩)) := by
@@ -224,12 +228,12 @@ def KeysDistinct {α : Type} (cs : List (Str × α)) : Prop := cs.Pairwise fun a
 
 /-- every recorded channel value is recognised, re-read by the class and present in the cache -/
 def ChansOk {α : Type} (C : Cls α) (cache : Cache) (P : Str) (cs : List (Str × α)) : Prop :=
-  (∀ cv ∈ cs, ChanOk cv.1 ∧ RT C cv.2 ∧ cacheGet cache (childName P cv.1) = some (C.str cv.2)) ∧ KeysDistinct cs
+  (∀ cv ∈ cs, ChanOk cv.1 ∧ RT C cv.2 ∧ Cached C cache (childName P cv.1) cv.2) ∧ KeysDistinct cs
 
 def NetOk {α : Type} (C : Cls α) (cache : Cache) (B : Str) (ns : NetSpec α) : Prop :=
   (':' :: ns.name).getLast? ≠ some '\\' ∧
   (match ns.set with
-   | some w => RT C w ∧ cacheGet cache (netName B ns.name) = some (C.str w)
+   | some w => RT C w ∧ Cached C cache (netName B ns.name) w
    | none => cacheGet cache (netName B ns.name) = none ∧ ns.chans ≠ []) ∧
   ChansOk C cache (netName B ns.name) ns.chans
 
@@ -248,7 +252,7 @@ theorem loop_chans {α : Type} (C : Cls α) (K : Kind) (B : Str) (cache : Cache)
     have hcv := hall cv (by simp)
     have hpw' := List.pairwise_cons.mp hpw
     simp only [List.map_cons, List.cons_append, eagerLoop]
-    rw [eagerStep_chan C K B cache x cv.1 cv.2 hK hcv.1 (hfree cv (by simp)) hp hcv.2.2 hcv.2.1]
+    rw [eagerStep_chan C K B cache x cv.1 cv.2 hK hcv.1 (hfree cv (by simp)) hp hcv.2.2]
     simp only
     have := ih { x with chans := x.chans ++ [(cv.1, ⟨cv.2, true⟩)] } (by
         intro cv' h'
@@ -278,7 +282,7 @@ theorem loop_netchans {α : Type} (C : Cls α) (K : Kind) (B : Str) (cache : Cac
     have hpw' := List.pairwise_cons.mp hpw
     simp only [List.map_cons, List.cons_append, eagerLoop]
     rw [show netName B n = childName B (':' :: n) from rfl] at hcv ⊢
-    rw [eagerStep_netchan_existing C K B cache x l n cv.1 nv cv.2 hK hcv.1 hn hx hl (hfree cv (by simp)) hp hcv.2.2 hcv.2.1]
+    rw [eagerStep_netchan_existing C K B cache x l n cv.1 nv cv.2 hK hcv.1 hn hx hl (hfree cv (by simp)) hp hcv.2.2]
     simp only
     have := ih { x with nets := l ++ [(n, { nv with chans := nv.chans ++ [(cv.1, ⟨cv.2, true⟩)] })] } l
       { nv with chans := nv.chans ++ [(cv.1, ⟨cv.2, true⟩)] } rfl hl
@@ -302,7 +306,7 @@ theorem loop_net {α : Type} (C : Cls α) (K : Kind) (B : Str) (cache : Cache)
     rw [hs] at hset
     simp only [Option.isSome_some, if_true, List.cons_append, List.nil_append, eagerLoop, Option.getD_some]
     rw [show netName B ns.name = childName B (':' :: ns.name) from rfl]
-    rw [eagerStep_net C K B cache x ns.name w hfree hp hset.2 hset.1]
+    rw [eagerStep_net C K B cache x ns.name w hfree hp hset.2]
     simp only
     have := loop_netchans C K B cache ns.name hn ns.chans hK rest
       { x with nets := x.nets ++ [(ns.name, ⟨w, true, []⟩)] } x.nets ⟨w, true, []⟩ rfl hfree
@@ -324,7 +328,7 @@ theorem loop_net {α : Type} (C : Cls α) (K : Kind) (B : Str) (cache : Cache)
       simp only [Option.isSome_none, Bool.false_eq_true, if_false, List.nil_append, List.map_cons, List.cons_append,
         eagerLoop, Option.getD_none]
       rw [show netName B ns.name = childName B (':' :: ns.name) from rfl] at hcv hnone ⊢
-      rw [eagerStep_netchan_fresh C K B cache x ns.name cv.1 cv.2 hK hcv.1 hn hfree hp hnone hcv.2.2 hcv.2.1]
+      rw [eagerStep_netchan_fresh C K B cache x ns.name cv.1 cv.2 hK hcv.1 hn hfree hp hnone hcv.2.2]
       simp only
       have := loop_netchans C K B cache ns.name hn tail (Or.inl hK) rest
         { x with nets := x.nets ++ [(ns.name, ⟨x.value, false, [(cv.1, ⟨cv.2, true⟩)]⟩)] } x.nets
@@ -360,7 +364,7 @@ theorem loop_nets {α : Type} (C : Cls α) (K : Kind) (B : Str) (cache : Cache)
 
 /-- the spec is recognised by the start-up loop -/
 def BootOk {α : Type} (C : Cls α) (cache : Cache) (B : Str) (t : TreeSpec α) : Prop :=
-  RT C t.base ∧ cacheGet cache B = some (C.str t.base) ∧ ChansOk C cache B t.chans ∧
+  RT C t.base ∧ Cached C cache B t.base ∧ ChansOk C cache B t.chans ∧
   (∀ ns ∈ t.nets, NetOk C cache B ns) ∧ t.nets.Pairwise (fun a b => keyEq a.name b.name = false)
 
 /-- a fresh process whose cache holds the lines of a tree in normal form rebuilds that tree -/
@@ -368,9 +372,9 @@ theorem boot_rebuilds {α : Type} (C : Cls α) (K : Kind) (B : Str) (cache : Cac
     (hK : K.chanV = true ∨ (K.netV = true ∧ t.chans = [] ∧ ∀ ns ∈ t.nets, ns.chans = []))
     (hkeys : cache.map (·.1) = t.keys B) (h : BootOk C cache B t) :
     boot C K B cache = .up ⟨t.build, cache⟩ := by
-  obtain ⟨hb, hcb, hch, hnets, hpw⟩ := h
+  obtain ⟨hb, ⟨raw0, hcb, hraw0⟩, hch, hnets, hpw⟩ := h
   unfold boot
-  simp only [hcb, hb C.dflt]
+  simp only [hcb, hraw0 C.dflt]
   rw [if_neg (by rcases hK with h | h; simp [h]; simp [h.1])]
   rw [hkeys]
   unfold TreeSpec.keys
@@ -544,79 +548,6 @@ theorem mem_entries_net {α : Type} (B : Str) (t : TreeSpec α) (ns : NetSpec α
   unfold TreeSpec.entries
   simp only [List.mem_cons, List.mem_append, List.mem_flatMap]
   right; right; exact ⟨ns, h, hk⟩
-
-theorem saveLoad_normal_aux (hh : HeaderOk Gen.Registry.confFileHeader)
-    (pr : Char → Bool) (c : ClassId) (dflt : Val) (K : Kind) (B : Str) (t : TreeSpec Val) (cache0 : Cache)
-    (hK : K.chanV = true ∨ (K.netV = true ∧ t.chans = [] ∧ ∀ ns ∈ t.nets, ns.chans = []))
-    (hc : c ≠ .str .normalized) (h : Storable pr c dflt B t) :
-    saveLoad pr c dflt K B ⟨t.build, cache0⟩ =
-      .up ⟨t.build, (t.entries B).map fun kv => (kv.1, c.show pr kv.2)⟩ := by
-  have hshow : ∀ v, (c.cls pr dflt).str v = c.show pr v := fun _ => rfl
-  unfold saveLoad
-  simp only
-  rw [TreeSpec.build_dump B t h.sorted]
-  -- the file
-  have hfile : saveText pr c (t.entries B) =
-      closeText (((t.entries B).map fun kv => (⟨none, none, kv.1, c.show pr kv.2⟩ : VSpec)).map VSpec.spec) := by
-    unfold saveText closeText
-    simp only [ClassId.serializeAt, if_neg hc]
-    have := renderSpecs_plain true ((t.entries B).map fun kv => (kv.1, c.serialize pr kv.2))
-    simp only [List.map_map] at this
-    simp only [List.map_map]
-    rw [show ((fun ns : Str × Str => ({ wrapped := none, dfltSer := none, name := ns.1, ser := ns.2 } : Spec)) ∘
-        fun kv : Str × Val => (kv.1, c.serialize pr kv.2)) =
-        (VSpec.spec ∘ fun kv : Str × Val => ({ wrapped := none, dflt := none, name := kv.1, text := c.show pr kv.2 } : VSpec)) from by
-      funext kv; simp [VSpec.spec, ClassId.serialize]] at this
-    rw [this]
-    congr 1
-  rw [hfile, close_loads_aux hh _ (by
-    intro v hv
-    simp only [List.mem_map] at hv
-    obtain ⟨kv, hkv, rfl⟩ := hv
-    refine ⟨h.names kv.1 ?_, by intro w hw; simp at hw⟩
-    rw [← TreeSpec.entries_keys]
-    exact List.mem_map.mpr ⟨kv, hkv, rfl⟩)]
-  simp only [List.map_map]
-  -- the cache
-  have hlow : lowKeys ((t.entries B).map ((fun v : VSpec => (v.name, v.text)) ∘ fun kv => ⟨none, none, kv.1, c.show pr kv.2⟩)) =
-      (t.keys B).map asciiLower := by
-    rw [← TreeSpec.entries_keys]
-    simp [lowKeys, List.map_map, Function.comp_def]
-  have hnd : (lowKeys ((t.entries B).map ((fun v : VSpec => (v.name, v.text)) ∘ fun kv => ⟨none, none, kv.1, c.show pr kv.2⟩))).Nodup := by
-    rw [hlow]; exact h.distinct
-  rw [cacheOf_distinct _ hnd]
-  have hcache : ((t.entries B).map ((fun v : VSpec => (v.name, v.text)) ∘ fun kv => ⟨none, none, kv.1, c.show pr kv.2⟩)) =
-      (t.entries B).map fun kv => (kv.1, c.show pr kv.2) := by
-    simp [Function.comp_def]
-  rw [hcache] at hnd hlow ⊢
-  -- the start-up loop
-  have hget : ∀ kv ∈ t.entries B, cacheGet ((t.entries B).map fun kv => (kv.1, c.show pr kv.2)) kv.1 =
-      some ((c.cls pr dflt).str kv.2) := by
-    intro kv hkv
-    exact cacheGet_mem _ _ _ (List.mem_map.mpr ⟨kv, hkv, rfl⟩) hnd
-  apply boot_rebuilds (c.cls pr dflt) K B _ t hK
-  · simp only [List.map_map, Function.comp_def]
-    exact TreeSpec.entries_keys B t
-  · refine ⟨h.rt (B, t.base) (by simp [TreeSpec.entries]), hget (B, t.base) (by simp [TreeSpec.entries]), ?_, ?_, h.netsDistinct⟩
-    · refine ⟨fun cv hcv => ⟨h.chans.1 cv hcv, h.rt (childName B cv.1, cv.2) (mem_entries_chan B t cv hcv),
-        hget (childName B cv.1, cv.2) (mem_entries_chan B t cv hcv)⟩, h.chans.2⟩
-    · intro ns hns
-      obtain ⟨hlast, hco, hkd⟩ := h.nets ns hns
-      refine ⟨hlast, ?_, ?_, hkd⟩
-      · cases hs : ns.set with
-        | some w =>
-          have hm : (netName B ns.name, w) ∈ t.entries B :=
-            mem_entries_net B t ns hns _ (by simp [NetSpec.entries, hs])
-          exact ⟨h.rt (netName B ns.name, w) hm, hget (netName B ns.name, w) hm⟩
-        | none =>
-          have := h.unset ns hns hs
-          exact ⟨cacheGet_none _ _ (by rw [hlow]; exact this.1), this.2⟩
-      · intro cv hcv
-        have hm : (childName (netName B ns.name) cv.1, cv.2) ∈ t.entries B :=
-          mem_entries_net B t ns hns _ (by
-            simp only [NetSpec.entries, List.mem_append, List.mem_map]
-            right; exact ⟨cv, hcv, rfl⟩)
-        exact ⟨hco cv hcv, h.rt (childName (netName B ns.name) cv.1, cv.2) hm, hget (childName (netName B ns.name) cv.1, cv.2) hm⟩
 
 /-! ### lazy re-reading -/
 
